@@ -1,0 +1,52 @@
+//go:build verif
+
+package wallet
+
+import "strings"
+
+// Lemma harnesses for /verif/gocv (build tag verif only). Their bodies only
+// call the real functions of this package; what they state is their contract in
+// contracts_verif.go. They are never called.
+
+// lemmaEncodeDecode: every entropy encodes to a phrase that decodes to itself.
+func lemmaEncodeDecode(e *[16]byte) (d [16]byte, err error) {
+	p := encodeBIP39Phrase(e)
+	err = decodeBIP39Phrase(&d, p)
+	return
+}
+
+// lemmaDecodeEncode: a phrase that decodes re-encodes to its own words.
+func lemmaDecodeEncode(phrase string) (q string, err error) {
+	var d [16]byte
+	if err = decodeBIP39Phrase(&d, phrase); err != nil {
+		return
+	}
+	q = encodeBIP39Phrase(&d)
+	return
+}
+
+// lemmaChecksumIff: a well-formed phrase decodes iff its checksum bits are right.
+func lemmaChecksumIff(phrase string) (ok bool, cs uint64, last uint64) {
+	var d [16]byte
+	err := decodeBIP39Phrase(&d, phrase)
+	ok = err == nil
+	cs = bip39checksum(&d)
+	if words := strings.Fields(phrase); len(words) == 12 {
+		last = wordMap[words[11]]
+	}
+	return
+}
+
+// lemmaSeedWhitespace: the derived seed depends only on the words of the phrase.
+func lemmaSeedWhitespace(p1, p2 string) (s1, s2 [32]byte, err1, err2 error) {
+	err1 = SeedFromPhrase(&s1, p1)
+	err2 = SeedFromPhrase(&s2, p2)
+	return
+}
+
+// lemmaKeyDeterministic: same seed and index, same key; the seed is not modified.
+func lemmaKeyDeterministic(seed *[32]byte, index uint64) (k1, k2 []byte) {
+	k1 = KeyFromSeed(seed, index)
+	k2 = KeyFromSeed(seed, index)
+	return
+}
